@@ -113,6 +113,34 @@ Theorem C12_signature_guards_from_source : forall norm (sg : option sig_info) (s
     = cert_matches (option_map (Necessary.norm_sig norm) sg) (Necessary.norm_sp norm s).
 Proof. exact Necessary.attrquery_necessity_bridge. Qed.
 
+(** END TO END, DOWN TO THE DOCUMENT: whenever the handler model answers with user data, the document the translated program builds
+    from the values the handler passes (query ID, entity ID, requester, the resolved user record, the requested attributes) abstracts to
+    exactly the answer of the model: the guards of C12_answered held and the wire content is the filtered record *)
+Definition dq_of (q : bytes * bytes) : dval := DObj "saml.AttributeType" [("Name"%string, DStr (fst q)); ("NameFormat"%string, DStr (snd q))].
+Lemma dq_wf l : Forall wf_attr (map dq_of l).
+Proof. induction l as [|q l IH]; constructor; [split; reflexivity|exact IH]. Qed.
+Lemma dq_requested l : requested_of (map dq_of l) = l.
+Proof. unfold requested_of. rewrite map_map. induction l as [|[n f] l IH]; [reflexivity|]. cbn [map]. now rewrite IH. Qed.
+Theorem C12_end_to_end_document : forall decode lookup verify_sig attr_locs userinfo cert_ok1 cert_ok2 sign_ok entity_id m id1 id2 rest issue until,
+  attrquery_handler decode lookup verify_sig attr_locs userinfo cert_ok1 cert_ok2 sign_ok entity_id attrquery_steps = ADone [ASoap m] ->
+  exists q sp n u, decode = Some q /\ userinfo n = Some u /\ aq_nameid q = Some n /\
+    built_sat "makeAttributeQueryResponse" None
+      [DStr (aq_id q); DStr entity_id; DStr (sp_entity sp); user_rec u; DList (map dq_of (aq_attrs q)); DStr (b "f"); DNil] (id1 :: id2 :: rest) issue until
+      (fun d r => r = rest /\
+         opt_str (at_ d ["InResponseTo"%string]) = am_in_response_to m /\ opt_str (at_ d ["Issuer"; "Text"]%string) = am_issuer m /\
+         dget d [PField "Assertion"; PField "Conditions"; PField "AudienceRestriction"; PIndex 0; PField "Audience"] = Some (DList [DStr (am_audience m)]) /\
+         opt_str (at_ d ["Assertion"; "Subject"; "NameID"; "Text"]%string) = am_nameid m /\
+         exists l, dget d [PField "Assertion"; PField "AttributeStatement"; PIndex 0; PField "Attribute"] = Some (DList l) /\
+                   map attr_of_dval l = am_attrs m).
+Proof.
+  intros decode lookup verify_sig attr_locs userinfo cert_ok1 cert_ok2 sign_ok entity_id m id1 id2 rest issue until H.
+  destruct (C12_answered _ _ _ _ _ _ _ _ _ _ H) as (q & i & sp & n & u & E & _ & _ & _ & _ & _ & En & Eu & _ & _ & _ & Em).
+  exists q, sp, n, u. split; [exact E|split; [exact Eu|split; [exact En|]]].
+  eapply built_sat_mono; [exact (attrquery_message_refines (aq_id q) entity_id (sp_entity sp) u (map dq_of (aq_attrs q)) id1 id2 rest issue until (dq_wf _))|].
+  intros d r (Hr & H1 & _ & _ & _ & H5 & _ & H7 & H8 & H9). rewrite dq_requested in *. subst m.
+  cbn [am_in_response_to am_issuer am_audience am_nameid am_attrs] in *. repeat split; auto.
+Qed.
+
 (** the attribute filter: an attribute is disclosed iff it is one of the user's attributes and (nothing was requested or
     its name and name format match a requested attribute) *)
 Theorem C12_filter : forall requested l a, In a (filter_attrs requested l) <->
@@ -170,3 +198,4 @@ Print Assumptions C12_filter_from_source.
 Print Assumptions C12_answer_refines_model.
 Print Assumptions C12_answer_message_refines_model.
 Print Assumptions C12_signature_guards_from_source.
+Print Assumptions C12_end_to_end_document.
